@@ -1,5 +1,7 @@
 import PqVerif.Lemmas.GradLaws
 import PqVerif.Lemmas.ShimLaws
+import PqVerif.Lemmas.DispRec
+import PqVerif.Lemmas.SqueezeRec
 
 /-!
 # C10 — automatic derivatives equal the true derivatives (partial)
@@ -10,9 +12,15 @@ Proved: the hand-written gradient RULES whose correctness is a mathematical stat
   pattern, with `perm` the permanent with multiplicities proved equal to the native kernel in C04;
 * `disp_grad_r`, `disp_grad_phi`: the rules of `create_single_mode_displacement_gradient` for every entry `(m, n)`
   of the displacement matrix (closed form `dispEntry`, compared with the code's matrix on every run);
+* `disp_loop_closed_form`: the LOOP of `create_single_mode_displacement_matrix` (column recurrence with the rolled
+  index, every cutoff) computes exactly that closed form, so the two rules above are statements about what the code
+  builds, not only about a formula compared numerically;
+* `sq_loop_closed_form`, `sq_grad_r`, `sq_grad_phi`: the same for the single-mode squeezing matrix — the two-step column
+  recurrence of `create_single_mode_squeezing_matrix` computes the closed form `sqEntry` for every cutoff and entry, and
+  the rules of `create_single_mode_squeezing_gradient` are the derivatives of every entry with respect to `r` and `phi`;
 * `sqrtm_vjp`: the Sylvester-equation cotangent of the matrix square root used by the TensorFlow connector after the
   fix of this round.
-NOT proved: the squeezing rule, the vector–Jacobian products of state-vector application and of the interferometer
+NOT proved: the vector–Jacobian products of state-vector application and of the interferometer
 representation, the autodiff of TensorFlow / JAX themselves — all compared with finite differences of the NumPy
 simulation on the real code.
 -/
@@ -38,6 +46,33 @@ theorem disp_grad_phi (m n : ℕ) (r φ : ℝ) :
         (Complex.exp (Complex.I * φ) * (Real.sqrt m : ℂ) * dispEntry (m - 1) n r φ
           + Complex.exp (-(Complex.I * φ)) * (Real.sqrt n : ℂ) * dispEntry m (n - 1) r φ)) φ :=
   Pq.GradLaws.disp_grad_phi m n r φ
+
+theorem disp_loop_closed_form (c : ℕ) (r φ : ℝ) (m n : ℕ) :
+    Pq.DispRec.entry c r φ m n = dispEntry m n r φ :=
+  Pq.DispRec.entry_eq_dispEntry c r φ m n
+
+open Pq.SqueezeRec in
+theorem sq_loop_closed_form (c : ℕ) (r φ : ℝ) (m n : ℕ) : Pq.SqueezeRec.entry c r φ m n = sqEntry m n r φ :=
+  Pq.SqueezeRec.sq_loop_closed_form c r φ m n
+
+open Pq.SqueezeRec in
+theorem sq_grad_phi (m n : ℕ) (r φ : ℝ) :
+    HasDerivAt (fun x : ℝ => sqEntry m n r x)
+      (-(Complex.I / 2) * (Real.tanh r : ℂ) *
+        (Complex.exp (Complex.I * φ) * (Real.sqrt ((m : ℝ) * ((m : ℝ) - 1)) : ℂ) * sqEntry (m - 2) n r φ
+          + Complex.exp (-(Complex.I * φ)) * (Real.sqrt ((n : ℝ) * ((n : ℝ) - 1)) : ℂ) * sqEntry m (n - 2) r φ)) φ :=
+  Pq.SqueezeRec.sq_grad_phi m n r φ
+
+open Pq.SqueezeRec in
+theorem sq_grad_r (m n : ℕ) (r φ : ℝ) :
+    HasDerivAt (fun x : ℝ => sqEntry m n x φ)
+      (-((Real.tanh r : ℂ) / 2) * sqEntry m n r φ
+        - ((1 / Real.cosh r : ℝ) : ℂ) * (Real.tanh r : ℂ) * (Real.sqrt ((m : ℝ) * (n : ℝ)) : ℂ)
+            * sqEntry (m - 1) (n - 1) r φ
+        - (((1 / Real.cosh r : ℝ) : ℂ) ^ 2 / 2) *
+          (Complex.exp (Complex.I * φ) * (Real.sqrt ((m : ℝ) * ((m : ℝ) - 1)) : ℂ) * sqEntry (m - 2) n r φ
+            - Complex.exp (-(Complex.I * φ)) * (Real.sqrt ((n : ℝ) * ((n : ℝ) - 1)) : ℂ) * sqEntry m (n - 2) r φ)) r :=
+  Pq.SqueezeRec.sq_grad_r m n r φ
 
 theorem sqrtm_vjp {n : Type} [Fintype n] [DecidableEq n] (P X dM Y G : Matrix n n ℂ)
     (hX : P * X + X * P = dM) (hY : Pᴴ * Y + Y * Pᴴ = G) :
